@@ -372,3 +372,20 @@ s("C16", "validate-cast-pred", DET, "        if y_pred is not None:\n           
 s("C16", "nndvi-uses-ypred", NV, "        test_batch = np.array(X)\n", "        test_batch = np.array(X) if y_pred is None else np.array(X)[: len(y_pred)]\n", "TNT-unused")
 b(["C16"], "ddm-indicator-swapped", CO + "ddm.py", "classifier_result = int(y_pred != y_true)", "classifier_result = int(y_true != y_pred)")
 b(["C16", "C05"], "eddm-temp-agree", CO + "eddm.py", "        classifier_result = int(y_pred == y_true)", "        same = y_pred == y_true\n        classifier_result = int(same)")
+
+# ---------------------------------------------------------------- C17
+s("C17", "kdq-quantile-alpha", KD, 'return np.quantile(critical_distances, 1 - self.alpha, method="nearest")', 'return np.quantile(critical_distances, self.alpha, method="nearest")', "POL")
+s("C17", "stepd-drift-gt", CO + "stepd.py", "if accuracy_decreased and self._test_p < self.alpha_drift:", "if accuracy_decreased and self._test_p > self.alpha_drift:", "POL")
+s("C17", "hdm-alpha-half", HDMF, "                1 - (self.significance / 2), self.reference_n + test_n - 2", "                (self.significance / 2), self.reference_n + test_n - 2", "POL")
+s("C17", "lfr-lower-bound-upper-level", LF, "lb_detect = np.percentile(result_vector, q=detect_level * 100)", "lb_detect = np.percentile(result_vector, q=100 - detect_level * 100)", "POL")
+s("C17", "eddm-drift-ge", CO + "eddm.py", "if self._test_statistic <= self.drift_thresh:", "if self._test_statistic >= self.drift_thresh:", "POL")
+s("C17", "cusum-alarm-lt", CD + "cusum.py", "                if self._upper_bound[self.samples_since_reset] > self.threshold:\n                    self.drift_state = \"drift\"\n            elif self.direction == \"negative\"", "                if self._upper_bound[self.samples_since_reset] < self.threshold:\n                    self.drift_state = \"drift\"\n            elif self.direction == \"negative\"", "POL")
+s("C17", "ddm-scale-in-minimum", CO + "ddm.py", "            <= self._error_rate_min + self._error_std_min\n", "            <= self._error_rate_min + self.drift_scale * self._error_std_min\n", "TNT-threshold")
+s("C17", "ddm-drift-under-warning", CO + "ddm.py", "        if (\n            self._error_rate + self._error_std\n            >= self._error_rate_min + self.drift_scale * self._error_std\n        ):\n            self.drift_state = \"drift\"\n        elif (\n            self._error_rate + self._error_std\n            >= self._error_rate_min + self.warning_scale * self._error_std\n        ):\n            self.drift_state = \"warning\"", "        if (\n            self._error_rate + self._error_std\n            >= self._error_rate_min + self.warning_scale * self._error_std\n        ) and (\n            self._error_rate + self._error_std\n            >= self._error_rate_min + self.drift_scale * self._error_std\n        ):\n            self.drift_state = \"drift\"\n        elif (\n            self._error_rate + self._error_std\n            >= self._error_rate_min + self.warning_scale * self._error_std\n        ):\n            self.drift_state = \"warning\"", "TNT-warning")
+s("C17", "nndvi-alpha-sampling", NV, "            M_nnps, v_ref, v_test, self.sampling_times, self.alpha\n", "            M_nnps, v_ref, v_test, int(self.sampling_times * (1 + self.alpha)), self.alpha\n", "TNT-threshold")
+s("C17", "adwin-delta-mult", AD, "                2 * log(n_elements) / self.delta\n", "                2 * log(n_elements) * self.delta\n", "POL")
+s("C17", "ddm-min-frozen-in-warning", CO + "ddm.py", "        if (\n            self._error_rate + self._error_std\n            <= self._error_rate_min + self._error_std_min\n        ):", "        if self.drift_state != \"warning\" and (\n            self._error_rate + self._error_std\n            <= self._error_rate_min + self._error_std_min\n        ):", "TNT-warning")
+s("C17", "hdm-stdev-minus", HDMF, "            beta = epsilon_hat + self.significance * stdev", "            beta = epsilon_hat - self.significance * stdev", "POL")
+s("C17", "kdq-counter-grows-when-below", KD, "                elif input_type == \"stream\":\n                    self._drift_counter = 0\n", "                elif input_type == \"stream\":\n                    self._drift_counter = max(0, self._drift_counter - 1)\n", "TNT-threshold")
+s("C17", "eddm-warning-lt-flip", CO + "eddm.py", "            elif self._test_statistic <= self.warning_thresh:", "            elif self._test_statistic >= self.warning_thresh:", "POL")
+s("C17", "stepd-stat-uses-alpha", CO + "stepd.py", "            self._test_p = 1 - scipy.stats.norm.cdf(\n                self._test_statistic, 0, 1\n            )", "            self._test_p = 1 - scipy.stats.norm.cdf(\n                self._test_statistic, 0, 1 + self.alpha_drift\n            )", ["TNT-threshold", "POL", "ANALYSIS-ERROR"])
